@@ -63,6 +63,8 @@ pub struct Stats {
     pub states: usize,
     pub transitions: usize,
     pub max_resp: Vec<u16>,
+    /// did the task ever execute in a reachable transition?
+    pub ran: Vec<bool>,
     pub violation: Option<(usize, u16)>,
     pub truncated: bool,
     pub caps: Caps,
@@ -94,6 +96,7 @@ fn too_old<T: Sys>(sys: &T, s: &T::S) -> bool {
 pub fn explore<T: Sys>(sys: &T, max_states: usize) -> Stats {
     let mut st = Stats {
         max_resp: vec![0; sys.ntasks()],
+        ran: vec![false; sys.ntasks()],
         ..Default::default()
     };
     let mut seen: HashSet<T::S> = HashSet::new();
@@ -125,6 +128,9 @@ pub fn explore<T: Sys>(sys: &T, max_states: usize) -> Stats {
         }
         for (n, l) in out.drain(..) {
             st.transitions += 1;
+            if let Some(t) = l.ran {
+                st.ran[t as usize] = true;
+            }
             if l.end == End::Complete {
                 if let Some(t) = l.ran {
                     let t = t as usize;
